@@ -415,7 +415,7 @@ func genEvent(r *hx.Rand) c20Ev {
 	}
 	switch r.Intn(6) {
 	case 0:
-		ev.Size = genInt64(r)
+		ev.Size = genInt64(r, 0)
 	case 1:
 		ev.Size = 0
 	default:
